@@ -64,27 +64,45 @@ def strip_coq_comments(src):
     return "".join(out)
 
 
-def forbidden_tokens():
-    """scan every .v of the development (comments stripped) for forbidden declarations,
+def coq_closure(start):
+    """files (relative to coq/) in the Require closure of `start` inside the SQ library"""
+    seen, todo = set(), [start]
+    while todo:
+        f = todo.pop()
+        if f in seen or not os.path.exists(os.path.join(COQ, f)):
+            continue
+        seen.add(f)
+        src = strip_coq_comments(open(os.path.join(COQ, f)).read())
+        for m in re.finditer(r"From\s+SQ\s+Require\s+(?:Import\s+|Export\s+)?(.*?)\.(?=\s|$)", src, re.S):
+            for tok in m.group(1).split():
+                todo.append(tok.replace(".", "/") + ".v")
+    return sorted(seen)
+
+
+def forbidden_tokens(files=None):
+    """scan the .v files (comments stripped) for forbidden declarations,
     and for Variable/Hypothesis/Context outside a Section"""
     bad = []
-    for d, _, fs in os.walk(COQ):
-        for f in fs:
-            if not f.endswith(".v") or f.startswith("_dbg_"):
-                continue
-            p = os.path.join(d, f)
-            src = strip_coq_comments(open(p).read())
-            for m in FORBIDDEN.finditer(src):
-                bad.append("%s: %s" % (os.path.relpath(p, COQ), m.group(0)))
-            depth = 0
-            for line in src.split("\n"):
-                s = line.strip()
-                if re.match(r"Section\s+\w+\s*\.", s):
-                    depth += 1
-                elif re.match(r"End\s+\w+\s*\.", s) and depth > 0:
-                    depth -= 1
-                elif depth == 0 and re.match(r"(Variable|Variables|Hypothesis|Hypotheses|Context)\b", s):
-                    bad.append("%s: %s outside a Section" % (os.path.relpath(p, COQ), s.split()[0]))
+    if files is None:
+        files = []
+        for d, _, fs in os.walk(COQ):
+            for f in fs:
+                if f.endswith(".v") and not f.startswith("_dbg_"):
+                    files.append(os.path.relpath(os.path.join(d, f), COQ))
+    for rel in sorted(files):
+        p = os.path.join(COQ, rel)
+        src = strip_coq_comments(open(p).read())
+        for m in FORBIDDEN.finditer(src):
+            bad.append("%s: %s" % (rel, m.group(0)))
+        depth = 0
+        for line in src.split("\n"):
+            s = line.strip()
+            if re.match(r"Section\s+\w+\s*\.", s):
+                depth += 1
+            elif re.match(r"End\s+\w+\s*\.", s) and depth > 0:
+                depth -= 1
+            elif depth == 0 and re.match(r"(Variable|Variables|Hypothesis|Hypotheses|Context)\b", s):
+                bad.append("%s: %s outside a Section" % (rel, s.split()[0]))
     return bad
 
 
@@ -444,7 +462,8 @@ def check(prop, tier, seed, replay=None):
     nprint, axioms = parse_assumptions(out)
     allowed = set(cfg.get("axioms_allowed", []))
     bad_axioms = [a for a in axioms if a not in allowed]
-    tokens = forbidden_tokens()
+    closure = sorted(set(coq_closure(props_file) + (coq_closure(cfg['extract_target'][:-1]) if cfg.get('extract_target') else [])))
+    tokens = forbidden_tokens(closure)
     obligations = len(thms) + len(prints) + len(consts) + 1   # theorems + assumption reports + generated constants + token scan
     discharged = 0
     if proofs_ok:
@@ -588,6 +607,7 @@ def check(prop, tier, seed, replay=None):
             "obligations": obligations, "discharged": discharged,
             "checker_cmd": "(cd coq && %s)%s" % (cmd, " ; coqchk -silent -o -Q . SQ SQ.%s" % props_file[:-2].replace("/", ".") if tier == "thorough" else ""),
             "trusted_base": cfg.get("trusted_base", []) + registry.COMMON_TRUSTED,
+            "coq_files_in_closure": closure,
             "theorems": thms, "print_assumptions_reports": nprint, "axioms_reported": axioms,
             "generated_constants": consts, "missing_constants": missing,
             "evaluations": evals, "distinct_nontrivial": dn,
